@@ -293,8 +293,16 @@ pub async fn mpc(
     tmp_dir: Option<&Path>,
 ) -> Result<Vec<bool>, Error> {
     let p_fpre = Preprocessor::Untrusted;
+    // The output parties are a set: a repeated index must not lead to repeated output messages,
+    // which the receiver would mistake for the next message of the protocol.
+    let mut p_out_set: Vec<usize> = Vec::with_capacity(p_out.len());
+    for p in p_out {
+        if !p_out_set.contains(p) {
+            p_out_set.push(*p);
+        }
+    }
     let ctx = Context::new(
-        channel, circuit, inputs, p_fpre, p_eval, p_own, p_out, tmp_dir,
+        channel, circuit, inputs, p_fpre, p_eval, p_own, &p_out_set, tmp_dir,
     );
     _mpc(&ctx).await
 }
